@@ -40,6 +40,7 @@ def run(ctx):
     # 4. whole versions
     vpairs = _ver.version_pairs(ctx, ctx.n(20000, 300000))
     vpairs += [(a, b) for a in _ver.BOUNDARY for b in _ver.BOUNDARY]
+    vpairs += _ver.BIG_PAIRS
     bad += ctx.compare('corr:compare_versions', [('compare_versions', [a, b]) for a, b in vpairs], impl)
     bad += ctx.compare('corr:Version.compare', [('version_ops', [a, b]) for a, b in vpairs[:ctx.n(5000, 50000)]], impl)
 
@@ -77,6 +78,19 @@ def run(ctx):
         if r != s:
             st['prop_failures'] += 1
             fails.append(((a, b), 'compare_versions(%r, %r) = %r but dpkg orders them %r' % (a, b, r, s)))
+        # the same answer through every entry point: objects, strings, Version.compare
+        for how, f in (('compare_versions(Version, Version)', lambda: dv.compare_versions(dv.Version.from_string(a), dv.Version.from_string(b))),
+                       ('Version.compare(Version)', lambda: dv.Version.from_string(a).compare(dv.Version.from_string(b))),
+                       ('Version.compare(str)', lambda: dv.Version.from_string(a).compare(b)),
+                       ('compare_version_objects', lambda: dv.compare_version_objects(dv.Version.from_string(a), dv.Version.from_string(b)))):
+            ctx.evaluations += 1
+            try:
+                r2 = f()
+            except Exception as e:  # noqa
+                r2 = Exn(type(e).__name__)
+            if r2 != s:
+                st['prop_failures'] += 1
+                fails.append(((a, b), '%s on (%r, %r) = %r but dpkg orders them %r' % (how, a, b, r2, s)))
     hist = {}
     for a, b in vv:
         hist[min(len(a) + len(b), 200) // 20 * 20] = hist.get(min(len(a) + len(b), 200) // 20 * 20, 0) + 1
@@ -85,7 +99,7 @@ def run(ctx):
     # 6. the dpkg binary as a second opinion on the transcribed spec (validation, not an obligation)
     if _ver.dpkg_available():
         n = ctx.n(300, 5000)
-        sample = vv[:n]
+        sample = [(a, b) for a, b in vv if _ver.dpkg_accepts(a) and _ver.dpkg_accepts(b)][:n]
         spec = ctx.model.run([('dpkg_compare_sgn', [a, b]) for a, b in sample])
         st = ctx.stream('validate:spec-vs-dpkg-binary')
         for (a, b), s in zip(sample, spec):
